@@ -11,3 +11,4 @@ from . import ec  # noqa
 from . import der  # noqa
 from . import bip340  # noqa
 from . import fs  # noqa
+from . import cli  # noqa
